@@ -78,3 +78,16 @@ Theorem C02_code_formulas : forall (lgam : R -> R) d x c s lb ub, s <> 0 -> c <>
   gen_px lgam d x c s lb ub = model_px lgam d c s x.
 Proof. exact code_px_is_model. Qed.
 Print Assumptions C02_code_formulas.
+
+(* ... and so are the centre / width resolution, the degenerate case and the grid-with-limits helper of the base
+   class (Dispersion.get_weights, Dispersion._linspace), translated from the same file: the whole value grid that
+   get_weights returns, assembled from translated pieces only, is the model's [values]. *)
+Theorem C02_code_values : forall d relative center0 width nsig npts lb ub,
+  (let '(c, s) := gen_resolve relative width center0 in
+   if gen_degenerate s npts then fst (gen_degenerate_result c lb ub) else gen_grid d c s nsig npts lb ub) =
+  values ROps (sqrt 3) 1e-8 d relative center0 width nsig npts lb ub.
+Proof. exact code_values_is_model. Qed.
+Print Assumptions C02_code_values.
+Theorem C02_code_linspace : forall c s nsig npts lb ub, gen_lin c s nsig npts lb ub = lin ROps c s nsig npts lb ub.
+Proof. exact code_lin_is_model. Qed.
+Print Assumptions C02_code_linspace.
